@@ -318,3 +318,128 @@ def desugar_str_patterns(text):
         pos = start + len(new)
         log.append('`%s%s` routed to the stand-in of contracts/std_str_specs.rs (literal pattern)' % (recv[-40:], what))
     return text, log
+
+
+def _block_is_if_branch(body, code, open_idx):
+    """the `{` at open_idx opens the block of an `if COND`, `else if COND` or `else`"""
+    j = open_idx - 1
+    while j >= 0 and body[j].isspace():
+        j -= 1
+    if j >= 3 and body[j - 3:j + 1] == 'else' and code[j]:
+        return True
+    # walk back over the condition to the `if` keyword: stop at `;`, `{`, `}` at depth 0
+    d = 0
+    k = j
+    while k >= 0:
+        if code[k]:
+            c = body[k]
+            if c in ')]':
+                d += 1
+            elif c in '([':
+                d -= 1
+            elif d == 0 and c in ';{}':
+                return False
+            elif d == 0 and body.startswith('if', k) and re.match(r'if\b', body[k:k + 3]) and (k == 0 or not (body[k - 1].isalnum() or body[k - 1] == '_')):
+                return True
+        k -= 1
+    return False
+
+
+def drop_tail_continues(text):
+    """D31b: inside a `for` body, a `continue;` after which nothing can run -- it closes a branch of an if / else-if /
+    else chain (possibly nested in further such chains) that is the last statement of the body -- is dropped.
+    Returns (text, number dropped)."""
+    from .rustsrc import find_loops
+    n = 0
+    guard = 0
+    while guard < 40:
+        guard += 1
+        b0 = text.find('{')
+        if b0 < 0:
+            return text, n
+        body = text[b0:]
+        rf = RustFile('<body>', body)
+        code = rf.code
+        changed = False
+        for kwoff, broff, kw in find_loops(body):
+            if kw != 'for':
+                continue
+            end = _match_close(body, broff, code)
+            if end < 0:
+                continue
+            for m in re.finditer(r'\bcontinue\s*;', body[broff:end]):
+                cs, ce = broff + m.start(), broff + m.end()
+                if not code[cs]:
+                    continue
+                # the continue must belong to THIS for loop: no other loop header between broff and cs that encloses it
+                inner = False
+                for k2, b2, _kw2 in find_loops(body):
+                    if b2 > broff and b2 < cs:
+                        e2 = _match_close(body, b2, code)
+                        if e2 > cs:
+                            inner = True
+                if inner:
+                    continue
+                j = ce
+                ok = True
+                while True:
+                    while j < end and (body[j].isspace() or not code[j]):
+                        j += 1
+                    if j == end:
+                        break
+                    if body[j] != '}':
+                        ok = False
+                        break
+                    op = _match_open_brace(body, j, code)
+                    if op < 0 or not _block_is_if_branch(body, code, op):
+                        ok = False
+                        break
+                    j += 1
+                    # skip any `else [if COND] { .. }` that follows
+                    while True:
+                        k = j
+                        while k < end and (body[k].isspace() or not code[k]):
+                            k += 1
+                        if body.startswith('else', k) and re.match(r'else\b', body[k:k + 5]):
+                            k2 = k + 4
+                            pd = 0
+                            while k2 < end and not (code[k2] and body[k2] == '{' and pd == 0):
+                                if code[k2] and body[k2] in '([':
+                                    pd += 1
+                                elif code[k2] and body[k2] in ')]':
+                                    pd -= 1
+                                k2 += 1
+                            e3 = _match_close(body, k2, code)
+                            if e3 < 0:
+                                ok = False
+                                break
+                            j = e3 + 1
+                        else:
+                            break
+                    if not ok:
+                        break
+                if ok:
+                    body = body[:cs] + body[ce:]
+                    text = text[:b0] + body
+                    n += 1
+                    changed = True
+                    break
+            if changed:
+                break
+        if not changed:
+            return text, n
+    return text, n
+
+
+def _match_open_brace(text, i, code):
+    d = 0
+    for j in range(i, -1, -1):
+        if not code[j]:
+            continue
+        if text[j] == '}':
+            d += 1
+        elif text[j] == '{':
+            d -= 1
+            if d == 0:
+                return j
+    return -1
